@@ -1028,6 +1028,14 @@ func H_C13_seed() {
 	p := verifOpaque("p")
 	s1 := MnemonicToSeed(m, p)
 	want := verifSeedSpec(verifNFKD(m), "mnemonic"+verifNFKD(p))
+	verifAssert(verifBytesEq(s1, want), "seed-equals-spec")
+	// the caller wipes its copy; deriving again must give the full seed again
+	for i := range s1 {
+		s1[i] = 0
+	}
+	s1b := MnemonicToSeed(m, p)
+	verifAssert(verifBytesEq(s1b, want), "seed-after-caller-wiped-earlier-result")
+	s1 = s1b
 	_ = MnemonicToSeed(verifOpaque("m2"), verifOpaque("p2"))
 	verifWarm(verifIntRange("warm9", -1, 10))
 	verifAssert(verifBytesEq(s1, want), "earlier-seed-unaltered-by-later-calls")
